@@ -45,8 +45,9 @@ pub fn unpack_time(prodos_date_time: [u8;4]) -> Option<chrono::NaiveDateTime> {
 /// Test the string for validity as a ProDOS name.
 /// This can be used to check names before passing to functions that may panic.
 pub fn is_name_valid(s: &str) -> bool {
+    // (upper case of a letter that is not ASCII can be an ASCII letter, or two: the name is stored byte by byte)
     let fname_patt = regex::Regex::new(r"^[A-Z][A-Z0-9.]{0,14}$").unwrap();
-    if !fname_patt.is_match(&s.to_uppercase()) {
+    if !s.is_ascii() || !fname_patt.is_match(&s.to_uppercase()) {
         return false;
     } else {
         return true;
